@@ -208,6 +208,33 @@ def fptr_cases(tier):
         yield (f"fptr:local:{lp[:8]}", "int\tft_test(int n)\n{\n\t" + lp + "\n\n\treturn (n);\n}\n")
 
 
+def proto_pair_cases(tier):
+    """Two (three) aligned prototypes whose return types differ in width and in number of words: the name column is
+    the first tab stop after the widest type."""
+    types = [("int", 0), ("char", 1), ("void", 0), ("static int", 0), ("unsigned int", 0), ("static unsigned char", 0),
+             ("static long long", 0), ("static const int", 0), ("static unsigned long", 0), ("const struct s_point", 1), ("t_list", 1),
+             ("unsigned long long", 0), ("static unsigned int", 0), ("const unsigned char", 1), ("size_t", 0), ("struct s_point", 0),
+             ("static const unsigned long long", 0), ("long", 0)]
+    def proto(t, stars, name, col):
+        w = len(t)
+        ntabs = 0
+        c = w + 1
+        while c < col:
+            c = norm.next_stop(c)
+            ntabs += 1
+        return t + "\t" * max(1, ntabs) + "*" * stars + name + "(int n);"
+    for (t1, s1), (t2, s2) in itertools.product(types, repeat=2):
+        col = max(norm.next_stop(len(t1) + 1), norm.next_stop(len(t2) + 1))
+        a, b_ = proto(t1, s1, "ft_one", col), proto(t2, s2, "ft_two", col)
+        if norm.line_width(a) <= 80 and norm.line_width(b_) <= 80:
+            yield (f"protopair:{t1}|{t2}", a + "\n" + b_ + "\n\nint\tmain(void)\n{\n\treturn (0);\n}\n")
+    for (t1, s1), (t2, s2), (t3, s3) in zip(types, types[5:] + types[:5], types[11:] + types[:11]):
+        col = max(norm.next_stop(len(t) + 1) for t in (t1, t2, t3))
+        yield (f"prototriple:{t1}|{t2}|{t3}", "\n".join(proto(t, s_, nm, col) for (t, s_), nm in
+                                                      zip(((t1, s1), (t2, s2), (t3, s3)), ("ft_one", "ft_two", "ft_three")))
+               + "\n\nint\tmain(void)\n{\n\treturn (0);\n}\n")
+
+
 def decl_cases(tier):
     types = ["int", "char", "long", "short", "float", "double", "unsigned int", "unsigned char", "unsigned long long",
              "long long", "long int", "signed char", "size_t", "ssize_t", "t_list", "struct s_point", "enum e_color",
@@ -263,6 +290,7 @@ def all_cases(tier, seed):
     yield from sig_cases(tier)
     yield from decl_cases(tier)
     yield from fptr_cases(tier)
+    yield from proto_pair_cases(tier)
     yield from const_cases(tier)
 
 
